@@ -28,7 +28,7 @@ TrUpdateEdge == IsEv("update_edge") /\
 TrTryUpdateEdge == IsEv("try_update_edge") /\ Is("matrix") /\ (MxUpdateEdge(Ev.a, Ev.b, Ev.w, TRUE) \/ MxTryRefused) /\ Bind
 TrRemoveEdge == IsEv("remove_edge") /\ (IF Is("map") THEN MapRemoveEdge(Ev.a, Ev.b) ELSE Is("matrix") /\ MxRemoveEdge(Ev.a, Ev.b, FALSE)) /\ Bind
 TrTryRemoveEdge == IsEv("try_remove_edge") /\ Is("matrix") /\ MxRemoveEdge(Ev.a, Ev.b, TRUE) /\ Bind
-TrSetEdgeWeight == IsEv("set_edge_weight") /\ SetEdgeWeight(Ev.a, Ev.b, Ev.w, IF Ev.via = "index_mut" THEN <<"panic">> ELSE <<"none">>) /\ Bind
+TrSetEdgeWeight == IsEv("set_edge_weight") /\ SetEdgeWeight(Ev.a, Ev.b, Ev.w, IF Ev.via \in {"index_mut", "mx_edge_weight_mut"} THEN <<"panic">> ELSE <<"none">>) /\ Bind
 TrSetNodeWeight == IsEv("set_node_weight") /\ Is("matrix") /\ MxSetNodeWeight(Ev.a, Ev.w) /\ Bind
 TrClearEdges == IsEv("clear_edges") /\ ClearEdges /\ Bind
 TrClear == IsEv("clear") /\ Clear /\ Bind
@@ -37,6 +37,8 @@ TrExtend == IsEv("extend") /\ (IF Is("map") THEN MapExtend(Ev.edges) ELSE Is("ma
 \* add_or_update_edge grows the matrix first, so between existing nodes it is never refused
 TrAddOrUpdateEdge == IsEv("add_or_update_edge") /\ Is("matrix") /\ MxUpdateEdge(Ev.a, Ev.b, Ev.w, TRUE) /\ Bind
 TrLoad == IsEv("load") /\ Is("map") /\ MapLoad(Ev.nodes, Ev.edges) /\ Bind
+TrListAddNodeFrom == IsEv("add_node_from_edges") /\ Is("list") /\ ListAddNodeFrom(Ev.edges) /\ Bind
+TrListSetEdgeWeight == IsEv("list_set_edge_weight") /\ Is("list") /\ ListSetEdgeWeight(Ev.a, Ev.rank, Ev.w) /\ Bind
 TrNoEffect == IsEv("noeffect") /\ NoEffect /\ Bind
 \* the IF makes TLC evaluate ObsOK as a state predicate (otherwise its inner disjunctions are expanded
 \* as alternative ways to build the successor state)
@@ -44,7 +46,7 @@ TrObs == IsEv("obs") /\ (IF ObsOK(Ev) THEN UNCHANGED svars ELSE FALSE)
 
 TraceNext == \/ TrReset \/ TrAddNode \/ TrRemoveNode \/ TrTryAddEdge \/ TrAddEdge \/ TrUpdateEdge \/ TrTryUpdateEdge
              \/ TrRemoveEdge \/ TrTryRemoveEdge \/ TrSetEdgeWeight \/ TrSetNodeWeight \/ TrClearEdges \/ TrClear
-             \/ TrFromSorted \/ TrExtend \/ TrAddOrUpdateEdge \/ TrLoad \/ TrNoEffect \/ TrObs
+             \/ TrFromSorted \/ TrExtend \/ TrAddOrUpdateEdge \/ TrLoad \/ TrListAddNodeFrom \/ TrListSetEdgeWeight \/ TrNoEffect \/ TrObs
 TraceSpec == TraceInit /\ [][TraceNext]_tvars
 TraceInv == WF /\ l # DbgAt
 
